@@ -405,9 +405,12 @@ func (r *Run) Finish() int {
 		"coverage": cov, "wall_s": time.Since(r.start).Seconds(), "violations": nviol,
 		"assumptions": append([]string{}, r.assumptions...),
 	}
-	_ = os.MkdirAll(filepath.Join(Root(), "evidence"), 0o755)
-	b, _ := json.MarshalIndent(evd, "", " ")
-	_ = os.WriteFile(filepath.Join(Root(), "evidence", r.Property+".json"), b, 0o644)
+	if os.Getenv("VERIF_NO_EVIDENCE") == "" {
+		// (replays and the sensitivity self-test do not rewrite the evidence of the real runs)
+		_ = os.MkdirAll(filepath.Join(Root(), "evidence"), 0o755)
+		b, _ := json.MarshalIndent(evd, "", " ")
+		_ = os.WriteFile(filepath.Join(Root(), "evidence", r.Property+".json"), b, 0o644)
+	}
 
 	if exit == 0 && (r.evaluations == 0 || len(r.distinct) < 2) {
 		fmt.Printf("INCONCLUSIVE: property=%s observed nothing (evaluations=%d distinct=%d)\n", r.Property, r.evaluations, len(r.distinct))
